@@ -122,7 +122,7 @@ struct chan_collect {
 };
 template <class Pixel> inline int pixel_bits(Pixel const& p, uint64_t out[8]) {
     chan_collect cc{ out, 0 };
-    gil::static_for_each(p, cc);
+    cc = gil::static_for_each(p, cc);     // the functor is threaded through by value: use the returned copy
     return cc.n;
 }
 // channels in *semantic* order (red, green, blue, alpha ...): used to compare images of
